@@ -23,6 +23,7 @@ partial def tyOfMich : Mich → Option Ty
   | .prim "list" [a] _ => (tyOfMich a).map .list
   | .prim "or" [a, b] _ => do pure (.or (← tyOfMich a) (← tyOfMich b))
   | .prim "pair" [a, b] _ => do pure (.pair (← tyOfMich a) (← tyOfMich b))
+  | .prim "pair" (a :: b :: c :: rest) an => do pure (.pair (← tyOfMich a) (← tyOfMich (.prim "pair" (b :: c :: rest) an)))
   | .prim "lambda" [a, b] _ => do pure (.lambda (← tyOfMich a) (← tyOfMich b))
   | .prim "map" [a, b] _ => do pure (.map (← tyOfMich a) (← tyOfMich b))
   | _ => none
@@ -67,6 +68,7 @@ mutual
     | .or l r, .prim "Left" [x] _ => (valOfMich l x).map fun v => .left v r
     | .or l r, .prim "Right" [x] _ => (valOfMich r x).map fun v => .right l v
     | .pair a b, .prim "Pair" [x, y] _ => do pure (.pair (← valOfMich a x) (← valOfMich b y))
+    | .pair a b, .prim "Pair" (x :: y :: z :: rest) an => do pure (.pair (← valOfMich a x) (← valOfMich b (.prim "Pair" (y :: z :: rest) an)))
     | .list t, .seq xs => (xs.mapM (valOfMich t)).map (.list t)
     | .map k v, .seq xs => (xs.mapM fun (e : Mich) => match e with
         | Mich.prim "Elt" [a, b] _ => do pure (Val.pair (← valOfMich k a) (← valOfMich v b))
@@ -80,6 +82,7 @@ mutual
     | .or l r, .prim "Left" [x] _ => (valOfMich' l x).map fun v => .left v r
     | .or l r, .prim "Right" [x] _ => (valOfMich' r x).map fun v => .right l v
     | .pair a b, .prim "Pair" [x, y] _ => do pure (.pair (← valOfMich' a x) (← valOfMich' b y))
+    | .pair a b, .prim "Pair" (x :: y :: z :: rest) an => do pure (.pair (← valOfMich' a x) (← valOfMich' b (.prim "Pair" (y :: z :: rest) an)))
     | .list t, .seq xs => (xs.mapM (valOfMich' t)).map (.list t)
     | .map k v, .seq xs => (xs.mapM fun (e : Mich) => match e with
         | Mich.prim "Elt" [a, b] _ => do pure (Val.pair (← valOfMich' k a) (← valOfMich' v b))
@@ -114,6 +117,10 @@ mutual
     | .prim "UNIT" [] _ => some .UNIT
     | .prim "PAIR" [] _ => some .PAIR
     | .prim "UNPAIR" [] _ => some .UNPAIR
+    | .prim "PAIR" [n] _ => (natArg n).map .PAIRN
+    | .prim "UNPAIR" [n] _ => (natArg n).map .UNPAIRN
+    | .prim "GET" [n] _ => (natArg n).map .GETN
+    | .prim "UPDATE" [n] _ => (natArg n).map .UPDATEN
     | .prim "CAR" [] _ => some .CAR
     | .prim "CDR" [] _ => some .CDR
     | .prim "SOME" [] _ => some .SOME
@@ -190,6 +197,8 @@ mutual
     | .LAMBDA a b c => .prim "LAMBDA" [tyToMich a, tyToMich b, instrToMich c] []
     | .EXEC => .prim "EXEC" [] [] | .APPLY => .prim "APPLY" [] [] | .FAILWITH => .prim "FAILWITH" [] []
     | .UNIT => .prim "UNIT" [] [] | .PAIR => .prim "PAIR" [] [] | .UNPAIR => .prim "UNPAIR" [] []
+    | .PAIRN n => .prim "PAIR" [.int n] [] | .UNPAIRN n => .prim "UNPAIR" [.int n] []
+    | .GETN n => .prim "GET" [.int n] [] | .UPDATEN n => .prim "UPDATE" [.int n] []
     | .CAR => .prim "CAR" [] [] | .CDR => .prim "CDR" [] [] | .SOME => .prim "SOME" [] []
     | .NONE t => .prim "NONE" [tyToMich t] [] | .LEFT t => .prim "LEFT" [tyToMich t] []
     | .RIGHT t => .prim "RIGHT" [tyToMich t] [] | .NIL t => .prim "NIL" [tyToMich t] []
